@@ -155,6 +155,13 @@ func TestVerifC20(t *testing.T) {
 		}
 		c.R.Evaluations--
 		x := newSession(s, 100, 40, nil)
+		byKey := map[string]*world.Node{}
+		for _, p := range g.Posts {
+			byKey["post:"+p.Label] = p
+		}
+		for _, a := range g.Actors {
+			byKey["actor:"+a.Label] = a
+		}
 		entry := g.Entries[r.Intn(len(g.Entries))]
 		desc := map[string]any{"hook": hook, "entry": entry.ID}
 		if c.Guard("hook:", desc, func() { x.s.Subcommand("open", entry.ID) }) || !x.settle(30*time.Second) {
@@ -201,6 +208,15 @@ func TestVerifC20(t *testing.T) {
 				tries = append(tries, attempt{fmt.Sprintf("%d\r", k), l, m, ok, fmt.Sprintf("SelectLink(%d)", k)})
 				if !ok {
 					break
+				}
+				// independent of what the accessor says: a link in running text declares no media type, so the hook must be told "*/*"
+				// whatever was opened earlier in this process
+				if node := byKey[wk.Key(unwrapped)]; node != nil && k <= len(node.BodyLinks) && m != nil {
+					c.Count("body_link_types_checked", 1)
+					if m.Essence != "*/*" || m.Supertype != "*" || m.Subtype != "*" {
+						c.Violation("hook:body-link-type", fmt.Sprintf("link %d of %s is a link in running text (no declared type) but is reported as %s (%s, %s)", k, wk.Key(unwrapped), m.Essence, m.Supertype, m.Subtype),
+							map[string]any{"hook": hook, "item": wk.Key(cur), "via": fmt.Sprintf("SelectLink(%d)", k), "link": ev.Trunc(l, 200)})
+					}
 				}
 			}
 			for _, at := range tries {
